@@ -144,6 +144,10 @@ class Session:
                 v = value(e["col"], n) if (len(e["col"]) in (1, n) or not d) else P.concrete(e["col"])
                 if e.get("via") == "attr":
                     setattr(d, e["name"], v)
+                elif e.get("via") == "setdefault":
+                    d.setdefault(e["name"], v)          # a new name: the dict way of assigning a column
+                elif e.get("via") == "ior":
+                    d |= {e["name"]: v}
                 else:
                     d[e["name"]] = v
             elif op == "setcol":
@@ -153,7 +157,10 @@ class Session:
             elif op == "delattr":
                 delattr(d, e["name"])
             elif op == "pop":
-                d.pop(e["name"])
+                if e.get("via") == "popitem":
+                    d.popitem()
+                else:
+                    d.pop(e["name"])
             elif op == "colnames":
                 d.colnames = list(e["names"])
             elif op == "group_by":
@@ -244,8 +251,13 @@ def random_event(rng, s, pal, focus=None):
     elif op == "setitem":
         ln = rng.choice([1, 1, n, n, n + 1, 2, 0])
         e.update({"name": rng.choice(cols + ["x", "y", "items", "a b"]) if cols else "x", "col": rand_cells(rng, ln, pal)})
-        if e["name"].isidentifier() and e["name"] not in ("items", "sort") and rng.random() < 0.5:
+        r = rng.random()
+        if e["name"].isidentifier() and e["name"] not in ("items", "sort") and r < 0.4:
             e["via"] = "attr"
+        elif r < 0.55 and e["name"] not in cols:
+            e["via"] = "setdefault"
+        elif r < 0.7:
+            e["via"] = "ior"
     elif op == "setcol":
         e["o"] = rng.randint(1, nf)
         oc = list(dict.keys(s.frames[e["o"] - 1]))
@@ -253,6 +265,8 @@ def random_event(rng, s, pal, focus=None):
     elif op in ("delitem", "delattr", "pop"):
         cand = [c for c in cols if op != "delattr" or (c.isidentifier() and c not in ("items", "sort"))]
         e["name"] = rng.choice(cand) if cand else "zz"
+        if op == "pop" and cols and rng.random() < 0.3:
+            e["name"], e["via"] = cols[-1], "popitem"
     elif op == "colnames":
         pool = list(dict.fromkeys(cols + ["x", "y", "items", "a b"]))
         rng.shuffle(pool)
